@@ -96,7 +96,7 @@ lemma_cong_add(fe_v(corr_0[1]), ai * ai + bi - ai * au + ci - fe_v(corr_1[1]), f
 
 def unit():
     u = VUnit('poplar1_sketch', 'Poplar1 correlated randomness and sketch arithmetic (abstract field)')
-    u.oracle = {'inject': 'src/vdaf/poplar1.rs', 'file': 'poplar1_oracle.rs', 'test': 'verif_oracle_poplar1::oracle_honest_levels'}
+    u.oracle = {'inject': 'src/vdaf/poplar1.rs', 'file': 'poplar1_oracle.rs', 'test': 'verif_oracle_poplar1::oracle_'}       # every executable contract of the module
     u.raw(FE_PRELUDE, 'abstract-field')
     u.raw(PRELUDE, 'prelude')
     u.item(PF, ['fn compute_next_corr_shares'], ret='r', rewrites=GEN,
